@@ -116,7 +116,14 @@ abbrev R := Except String
 
 def addU64? (a b : Nat) : Option Nat := if a + b < 2^64 then some (a + b) else none
 
-def sumU64? (xs : List Nat) : Option Nat := xs.foldlM (fun acc x => addU64? acc x) 0
+/-- left-to-right checked sum starting from `acc` (the Go loops `x, err = AddUint64(x, v)`) -/
+def sumFrom? : List Nat → Nat → Option Nat
+  | [], acc => some acc
+  | x :: xs, acc => match addU64? acc x with
+    | some a => sumFrom? xs a
+    | none => none
+
+def sumU64? (xs : List Nat) : Option Nat := sumFrom? xs 0
 
 /-- accrued coin hours; error code as the ledger reports it -/
 def coinHours (u : Ux) (t : Nat) : R Nat :=
@@ -130,10 +137,14 @@ def coinHours (u : Ux) (t : Nat) : R Nat :=
 
 def findUx (us : List Ux) (id : Id) : Option Ux := us.find? (·.id == id)
 
-def getArray (us : List Ux) (ids : List Id) : R (List Ux) :=
-  ids.mapM fun id => match findUx us id with
-    | some u => .ok u
+def getArray (us : List Ux) : List Id → R (List Ux)
+  | [] => .ok []
+  | id :: ids =>
+    match findUx us id with
     | none => .error "nounspent"
+    | some u => match getArray us ids with
+      | .error e => .error e
+      | .ok l => .ok (u :: l)
 
 def contains (us : List Ux) (id : Id) : Bool := us.any (·.id == id)
 
@@ -292,46 +303,57 @@ def sortTransactions (s : State) (txns : List Txn) : R (List Txn) := do
 
 /-! ### Blockchain.processTransactions -/
 
+/-- pending-output uniqueness for one transaction: in arbitrating mode a clash marks the txn
+    skipped but the loop continues with the next output (the inner `continue` of the Go code),
+    still recording the non-clashing hashes -/
+def ptOuts (s : State) (arb : Bool) : List Out → List Id → Bool → R (List Id × Bool)
+  | [], seen, skip => .ok (seen, skip)
+  | o :: os, seen, skip =>
+    if seen.contains o.id then
+      (if arb then ptOuts s arb os seen true else .error "dupux-block")
+    else if contains s.unspent o.id then
+      (if arb then ptOuts s arb os seen true else .error "ux-in-pool")
+    else ptOuts s arb os (o.id :: seen) skip
+
 /-- first loop: per-transaction constraints + pending-output uniqueness.
-    returns (kept transactions, in order) -/
-def ptLoop1 (s : State) (arb : Bool) : List Txn → List Id → List Txn → R (List Txn)
-  | [], _, kept => .ok kept.reverse
-  | t :: rest, uxHashes, kept =>
+    returns the kept transactions, in order -/
+def ptLoop1 (s : State) (arb : Bool) : List Txn → List Id → R (List Txn)
+  | [], _ => .ok []
+  | t :: rest, uxHashes =>
     match verifyBlockTxn s t with
     | .error e =>
-      if arb && e.startsWith "hard:" then ptLoop1 s arb rest uxHashes kept
+      if arb && e.startsWith "hard:" then ptLoop1 s arb rest uxHashes
       else .error e
     | .ok () =>
-      -- outputs: in arbitrating mode a clash marks the txn skipped but the loop continues with the
-      -- next output (the inner `continue`), still recording the non-clashing hashes
-      let rec outs (os : List Out) (seen : List Id) (skip : Bool) : R (List Id × Bool) :=
-        match os with
-        | [] => .ok (seen, skip)
-        | o :: os' =>
-          if seen.contains o.id then
-            if arb then outs os' seen true else .error "dupux-block"
-          else if contains s.unspent o.id then
-            if arb then outs os' seen true else .error "ux-in-pool"
-          else outs os' (o.id :: seen) skip
-      match outs t.outs uxHashes false with
+      match ptOuts s arb t.outs uxHashes false with
       | .error e => .error e
       | .ok (seen, skip) =>
-        if skip then ptLoop1 s arb rest seen kept else ptLoop1 s arb rest seen (t :: kept)
+        match ptLoop1 s arb rest seen with
+        | .error e => .error e
+        | .ok kept => .ok (if skip then kept else t :: kept)
 
 def sharesInput (a b : Txn) : Bool := a.ins.any fun x => b.ins.contains x
 
+/-- row of the double loop: compare `t` with every later transaction -/
+def ptRow (arb : Bool) (t : Txn) : List Txn → R (List Bool)
+  | [] => .ok []
+  | u :: us =>
+    if t.hash == u.hash then .error "duptxn"
+    else if sharesInput t u then
+      (if arb then (match ptRow arb t us with | .error e => .error e | .ok fl => .ok (true :: fl))
+       else .error "dblspend-block")
+    else match ptRow arb t us with | .error e => .error e | .ok fl => .ok (false :: fl)
+
 /-- second loop: for i<j, equal hashes are fatal; a shared input skips j (arbitrating) or fails.
-    `skipped` accumulates indices; skipped transactions still take part in later comparisons. -/
+    Skipped transactions still take part in later comparisons, as in the Go code. -/
 def ptLoop2 (arb : Bool) : List Txn → R (List Bool)
   | [] => .ok []
-  | t :: rest => do
-    -- flags for `rest` caused by t
-    let flags ← rest.mapM fun u =>
-      if t.hash == u.hash then (.error "duptxn" : R Bool)
-      else if sharesInput t u then (if arb then .ok true else .error "dblspend-block")
-      else .ok false
-    let restFlags ← ptLoop2 arb rest
-    .ok (false :: (List.zipWith (· || ·) flags restFlags))
+  | t :: rest =>
+    match ptRow arb t rest with
+    | .error e => .error e
+    | .ok flags => match ptLoop2 arb rest with
+      | .error e => .error e
+      | .ok restFlags => .ok (false :: (List.zipWith (· || ·) flags restFlags))
 
 /-- the order of error detection in the Go double loop is (i, j) lexicographic with the duptxn
     check before the inputs check; `ptLoop2` explores i's row completely before later rows, as Go does. -/
@@ -342,7 +364,7 @@ def processTransactions (s : State) (txns : List Txn) : R (List Txn) := do
   if txns.isEmpty then
     if arb then .ok [] else .error "notxns"
   else
-    let kept ← ptLoop1 s arb txns [] []
+    let kept ← ptLoop1 s arb txns []
     let flags ← ptLoop2 arb kept
     .ok ((kept.zip flags).filterMap fun (t, f) => if f then none else some t)
 
@@ -380,8 +402,8 @@ def unspentProcessBlock (s : State) (b : Block) : R State := do
   let xor1 := xorList (spent.map (·.snap)) s.xor
   let pool1 := s.unspent.filter (fun u => !inputs.contains u.id)
   -- "inserted twice" guard
-  let pool2 ← created.foldlM (fun acc u =>
-      if contains pool1 u.id then (.error "ux-twice" : R (List Ux)) else .ok (acc ++ [u])) pool1
+  if created.any (fun u => contains pool1 u.id) then .error "ux-twice"
+  let pool2 := pool1 ++ created
   let xor2 := xorList (created.map (·.snap)) xor1
   let rmAddrs := addrsOf spent
   let ai1 ← rmAddrs.foldlM (fun ai a =>
